@@ -1673,6 +1673,12 @@ func ForceFlushMetricsBlock() {
 	wg.Wait()
 }
 
+// keyBaseDir is the file name prefix of the blocks of the segment that is open now (<base><suffix>); a search request
+// built for this segment carries it as MetricsKeyBaseDir. The caller holds rwLock.
+func (ms *MetricsSegment) keyBaseDir() string {
+	return ms.metricsKeyBase + fmt.Sprintf("%d", ms.Suffix)
+}
+
 func GetUnrotatedMetricsSegmentRequests(tRange *dtu.MetricsTimeRange, querySummary *summary.QuerySummary, orgid utils.Option[int64]) (map[string][]*structs.MetricsSearchRequest, error) {
 	sTime := time.Now()
 	retVal := make(map[string][]*structs.MetricsSearchRequest)
@@ -1726,7 +1732,7 @@ func GetUnrotatedMetricsSegmentRequests(tRange *dtu.MetricsTimeRange, querySumma
 			finalReq := &structs.MetricsSearchRequest{
 				Mid:                  mSeg.Mid,
 				UnrotatedBlkToSearch: make(map[uint16]bool),
-				MetricsKeyBaseDir:    mSeg.metricsKeyBase + fmt.Sprintf("%d", mSeg.Suffix),
+				MetricsKeyBaseDir:    mSeg.keyBaseDir(),
 				BlocksToSearch:       retBlocks,
 				BlkWorkerParallelism: uint(2),
 				QueryType:            structs.UNROTATED_METRICS_SEARCH,
